@@ -113,6 +113,48 @@ Section Main.
         split; [intros E; contradiction|]. intros _. split; [reflexivity|exact Hni].
   Qed.
 
+  (** The repaired executor (cleanup sees every definition of the earlier phases) satisfies the whole
+      clause, without proviso. *)
+  Theorem repaired_execution b tc :
+    builtins_ok b = true -> wf_tcase tc = true -> spec_accept roots b tc = true ->
+    let o := sym_execute_gen true roots b tc in
+    o_sandbox o = true /\ o_verdict o <> VdValidation /\ o_verdict o <> VdInternal /\
+    map some_obs (o_values o) = spec_expected roots b tc.
+  Proof.
+    intros Hb Hwf Hacc o. subst o.
+    assert (HA := accept_iff roots b tc Hb Hwf). rewrite Hacc in HA. destruct HA as (tv & Hval & _ & _).
+    rewrite sym_execute_gen_seq, Hval, spec_expected_seq.
+    unfold spec_accept in Hacc. rewrite exec_order_main, accept_from_app in Hacc.
+    apply andb_true_iff in Hacc as [Hacc1 Hacc2].
+    assert (Hwfm : forall p, In p main_phases -> forallb wf_instr (t_instrs tc p) = true).
+    { intros p Hp. apply wf_tcase_phase; [exact Hwf|]. unfold main_phases, validation_order in *. cbn in *. tauto. }
+    assert (Hwfc : forallb wf_instr (t_cleanup tc) = true).
+    { apply (wf_tcase_phase tc Cleanup Hwf). unfold validation_order. cbn. tauto. }
+    destruct (run_seq_ok roots tc main_phases b (env_of_table roots b) (builtins_inv roots b Hb) Hwfm Hacc1)
+      as (rt & f & om & Hseq & Hexs & Hns & Hs & Hphs).
+    fold (main_instrs tc) in *. rewrite Hseq, Hexs.
+    assert (Hv := validate_phase_ok roots (main_instrs tc) b (env_of_table roots b) 0 (builtins_inv roots b Hb)).
+    rewrite Hacc1 in Hv. destruct Hv as [_ HI4].
+    { unfold main_instrs. rewrite flat_map_concat_map, forallb_forall. intros i Hi.
+      apply in_concat in Hi as (l & Hl & Hi). apply in_map_iff in Hl as (p & <- & Hp).
+      specialize (Hwfm p Hp). rewrite forallb_forall in Hwfm. apply Hwfm. exact Hi. }
+    destruct (run_main_ok roots Cleanup (t_cleanup tc) _ _ 0 HI4 Hwfc Hacc2) as (rt' & f' & o' & Hrun & Hexp & Hns' & Hs').
+    rewrite Hrun, Hexp. cbn [o_sandbox o_verdict o_values]. rewrite map_app.
+    assert (Hf : f = None \/ exists p j (h : bool), f = Some (p, j, if h then MHard else MFail)).
+    { destruct (existsb is_stop (main_instrs tc)).
+      - right. destruct (Hs eq_refl) as (p & j & h & _ & E). eauto.
+      - left. apply (Hns eq_refl). }
+    assert (Hf' : f' = None \/ exists j (h : bool), f' = Some (j, if h then MHard else MFail)).
+    { destruct (existsb is_stop (t_cleanup tc)).
+      - right. apply Hs'. reflexivity.
+      - left. apply (Hns' eq_refl). }
+    split; [reflexivity|].
+    assert (Hfin : fst (finish f f') <> VdValidation /\ fst (finish f f') <> VdInternal).
+    { destruct Hf as [->|(p & j & h & ->)], Hf' as [->|(j' & h' & ->)]; cbn [finish];
+        try (destruct p); try (destruct h); try (destruct h'); cbn; split; discriminate. }
+    destruct Hfin as [H1 H2]. split; [exact H1|]. split; [exact H2|reflexivity].
+  Qed.
+
   (** *** the execution-time table *)
   Lemma puts_lookup_stable is_ : forall t e n c,
     Inv t e -> forallb wf_instr is_ = true -> accept_from roots e is_ = true ->
